@@ -172,10 +172,13 @@ class Index:
         self.matches = canon.desugar_matches(self)
         self.walrus = canon.desugar_walrus(self)
         self.param_names = canon.pinned_parameter_names(self)
+        self.defaulted = canon.specialise_default_parameters(self)
         self.functional = canon.desugar_functional_idioms(self)
         self.yieldfroms = canon.desugar_yield_from(self)
         self.enumerates = canon.desugar_enumerate_idioms(self)
         self.replicated = canon.desugar_replicated_unpack(self)
+        self.counters = canon.desugar_counters(self)
+        self.fused = canon.fuse_record_lists(self)
         self.positional = canon.positional_calls(self)
         self.aliased = canon.attach_aliased_methods(self)
         self.renamed = canon.apply(self, canon.discover(self))
